@@ -7,6 +7,7 @@ import (
 	"reflect"
 	"strings"
 
+	"github.com/grafana/cog/internal/ast"
 	"github.com/grafana/cog/internal/codegen"
 	"github.com/grafana/cog/internal/tools"
 	"github.com/grafana/cog/internal/yaml"
@@ -98,6 +99,49 @@ func constrainUnions(schema *jsonschema.Schema) {
 
 		if len(criteria) != 0 {
 			definition.AnyOf = criteria
+		}
+	}
+
+	// a type names its kind, and is described under the key of that kind: the loaders
+	// refuse a type without its description, an enum without values, a disjunction
+	// without branches, a constraint without argument (see ast.Type.Validate)
+	if definition, found := schema.Definitions["AstType"]; found {
+		descriptions := []struct {
+			kind ast.Kind
+			key  string
+		}{
+			{ast.KindScalar, "scalar"}, {ast.KindRef, "ref"}, {ast.KindConstantRef, "constantreference"},
+			{ast.KindArray, "array"}, {ast.KindMap, "map"}, {ast.KindStruct, "struct"}, {ast.KindEnum, "enum"},
+			{ast.KindDisjunction, "disjunction"}, {ast.KindIntersection, "intersection"},
+			{ast.KindComposableSlot, "composable_slot"},
+		}
+
+		kinds := make([]any, 0, len(descriptions))
+		for _, description := range descriptions {
+			kinds = append(kinds, string(description.kind))
+
+			kindIs := jsonschema.NewProperties()
+			kindIs.Set("kind", &jsonschema.Schema{Const: string(description.kind)})
+
+			definition.AllOf = append(definition.AllOf, &jsonschema.Schema{
+				If:   &jsonschema.Schema{Properties: kindIs, Required: []string{"kind"}},
+				Then: &jsonschema.Schema{Required: []string{description.key}},
+			})
+		}
+
+		if kind, found := definition.Properties.Get("kind"); found {
+			kind.Enum = kinds
+		}
+	}
+	for name, key := range map[string]string{"AstEnumType": "values", "AstDisjunctionType": "branches", "AstTypeConstraint": "args"} {
+		definition, found := schema.Definitions[name]
+		if !found {
+			continue
+		}
+
+		definition.Required = append(definition.Required, key)
+		if property, found := definition.Properties.Get(key); found {
+			property.MinItems = &one
 		}
 	}
 
